@@ -79,7 +79,7 @@ class Exec:
 
     # ================================================================== solver helpers
     def _solver(self, timeout_ms: int = 4000) -> z3.Solver:
-        s = z3.Solver()
+        s = z3.SimpleSolver()
         s.set("timeout", timeout_ms)
         s.set("auto_config", False)
         s.set("smt.mbqi", False)
@@ -981,6 +981,19 @@ class Exec:
     # ---------------------------------------------------------------- subscripts
     def ev_Subscript(self, node: ast.Subscript, st: State):
         out = []
+        try:
+            txt = ast.unparse(node)
+        except Exception:
+            txt = ""
+        if txt == "self.__orig_bases__[0].__args__[0]":
+            # Schema.__init__: the props class is the subscript of the first base of the class
+            # definition (class-table rule, DESIGN Appendix C)
+            slf = st.env["self"]
+            h = self.hint_of(slf, st)
+            pc_ = self.repo.props_class_of(h) if h in self.repo.classes else None
+            if pc_ is None:
+                raise Unsupported(f"props class of {h}")
+            return [(st, Cls(pc_))]
         if isinstance(node.slice, ast.Slice):
             sl = node.slice
             if sl.step is not None:
@@ -1243,7 +1256,12 @@ class Exec:
                 st, val = r[0]
                 env[k] = val
             elif isinstance(v, tuple) and v and v[0] == "kwdict":
-                raise Unsupported("explicit extra keyword arguments captured by **kwargs")
+                if v[2] is not None:
+                    raise Unsupported("explicit keywords plus forwarded **kwargs captured together")
+                d = self.empty_dict_term(st, "kw")
+                for kk, kv in v[1].items():
+                    d = self.dict_store(st, d, M.mk_str(kk), self.term(kv, st), "kw")
+                env[k] = self.new_cell(st, DictC(d))
         st.env.update(env)
         self.call_depth += 1
         try:
@@ -1539,6 +1557,9 @@ class Exec:
                     s.cells[o.id] = c.set(tgt.attr, v)
                     out.append((s, NORMAL))
                 else:
+                    self.oblige(s, f"frame:setattr.{tgt.attr}", "frame", z3.BoolVal(False), ("C07",),
+                                text=f"attribute {tgt.attr} stored on an object that existed before the call",
+                                where=self.where())
                     raise Unsupported(f"attribute store on {o!r}")
             return out
         if isinstance(tgt, ast.Subscript):
@@ -1557,6 +1578,9 @@ class Exec:
                     s.cells[o.id] = DictC(self.dict_store(s, c.snap, self.term(k, s), self.term(v, s)))
                     out.append((s, NORMAL))
                 else:
+                    self.oblige(s, "frame:setitem", "frame", z3.BoolVal(False), ("C07",),
+                                text="item stored into a container that existed before the call",
+                                where=self.where())
                     raise Unsupported(f"subscript store on {o!r}")
             return out
         raise Unsupported(f"assignment target {type(tgt).__name__}")
